@@ -19,7 +19,7 @@ C01 / C05 / C06 / C10 / C11 / C18 are stated — IS `specLeaf`.  This file state
   C05_leaf_undefined_rejected   a plain scalar call without a `specLeaf` value is never accepted
   C05_int_out_of_range_rejected an integer / bool / char outside the column's range is never accepted (both directions)
 
-Still shared with the model: the rounding arithmetic of the DOCUMENTED LOSSY float cells (`Basic/Float.lean`:
+Shared with the model: the rounding arithmetic of the DOCUMENTED LOSSY float cells (`Basic/Float.lean`:
 `Float.convert`, `Float.ofInt` — on both sides, never claimed exact) and the parameters `Ext` (functions of other
 crates: float `Display`, the temporal / decimal parsers; for the codec instance two of them are tied to independent
 parser specifications in Lemmas/C05LeafSpecCodec.lean).
